@@ -66,11 +66,11 @@ def frame_json(df: pd.DataFrame, it: Interner):
         raise ValueError("column id collision")
     rows = []
     labels = list(df.index)
-    vals = df.to_numpy(dtype=object) if len(df.columns) else np.empty((len(df), 0), dtype=object)
+    colvals = [list(df.iloc[:, j].tolist()) for j in range(len(df.columns))]
     for k in range(len(df)):
         lab = labels[k]
         lab = int(lab) if isinstance(lab, (int, np.integer)) else it.get(lab) + 10 ** 9
-        rows.append([lab, [cell_json(vals[k, i], it) for i in order]])
+        rows.append([lab, [cell_json(colvals[i][k], it) for i in order]])
     return {"cols": ids, "names": [str(cols[i][1]) for i in order], "rows": rows}
 
 
